@@ -70,6 +70,10 @@ type flagCase struct {
 	val  int64
 	from *ssa.BasicBlock // predecessor block of the phi edge / block of the return
 	fn   *ssa.Function
+	// the value is the entry of a constant lookup table that a boolean key selects:
+	// it is taken exactly when key evaluates to keyVal (key == nil otherwise)
+	key    ssa.Value
+	keyVal bool
 }
 
 // flagCases enumerates the constant values an int expression may take: a
@@ -83,7 +87,7 @@ func (c *Ctx) flagCases(v ssa.Value, depth int) ([]flagCase, bool) {
 		if i, isI := v.(ssa.Instruction); isI {
 			blk, fn = i.Block(), i.Parent()
 		}
-		return []flagCase{{n, blk, fn}}, true
+		return []flagCase{{val: n, from: blk, fn: fn}}, true
 	}
 	if depth > 4 {
 		return nil, false
@@ -127,6 +131,20 @@ func (c *Ctx) flagCases(v ssa.Value, depth int) ([]flagCase, bool) {
 				}
 			}
 		}
+	case *ssa.Lookup:
+		// table[cond]: a package-level map[bool]int built once by the package
+		// initialiser from constants and never updated: one case per key (a key the
+		// table does not hold yields the zero value)
+		if tab, ok := c.globalBoolIntTable(x.X); ok && !x.CommaOk {
+			var out []flagCase
+			if k, isK := x.Index.(*ssa.Const); isK && k.Value != nil && k.Value.Kind() == constant.Bool {
+				return []flagCase{{val: tab[constant.BoolVal(k.Value)], from: x.Block(), fn: x.Parent()}}, true
+			}
+			for _, kv := range []bool{false, true} {
+				out = append(out, flagCase{val: tab[kv], from: x.Block(), fn: x.Parent(), key: x.Index, keyVal: kv})
+			}
+			return out, true
+		}
 	case *ssa.Call:
 		if callee := ir.Callee(x); callee != nil && c.P.InLib(callee) {
 			var out []flagCase
@@ -149,6 +167,102 @@ func (c *Ctx) flagCases(v ssa.Value, depth int) ([]flagCase, bool) {
 		}
 	}
 	return nil, false
+}
+
+// globalBoolIntTable: m is the load of a package-level map[bool]<integer> that
+// the package initialiser builds once from constants and that library code only
+// reads (looks up, measures, ranges over); returns its content.
+func (c *Ctx) globalBoolIntTable(m ssa.Value) (map[bool]int64, bool) {
+	ld, ok := m.(*ssa.UnOp)
+	if !ok || ld.Op != token.MUL {
+		return nil, false
+	}
+	g, ok := ld.X.(*ssa.Global)
+	if !ok || g.Pkg == nil {
+		return nil, false
+	}
+	mt, ok := g.Type().Underlying().(*types.Pointer).Elem().Underlying().(*types.Map)
+	if !ok || !isBoolType(mt.Key()) || !isNumeric(mt.Elem()) {
+		return nil, false
+	}
+	for _, fn := range c.P.LibFunctions() {
+		if fn.Pkg != g.Pkg || fn.Name() == "init" {
+			continue
+		}
+		bad := false
+		for _, f := range withAnon(fn) {
+			instrsOf(f, func(i ssa.Instruction) {
+				for _, op := range i.Operands(nil) {
+					if *op != ssa.Value(g) {
+						continue
+					}
+					// the variable itself is only loaded, and the loaded map only read
+					l, isLd := i.(*ssa.UnOp)
+					if !isLd || l.Op != token.MUL || l.Referrers() == nil {
+						bad = true
+						continue
+					}
+					for _, u := range *l.Referrers() {
+						switch y := u.(type) {
+						case *ssa.Lookup:
+							if y.X != ssa.Value(l) {
+								bad = true
+							}
+						case *ssa.Range, *ssa.DebugRef:
+						case *ssa.Call:
+							if id := ir.CallID(y); id != "builtin.len" {
+								bad = true
+							}
+						default:
+							bad = true
+						}
+					}
+				}
+			})
+		}
+		if bad {
+			return nil, false
+		}
+	}
+	init := g.Pkg.Func("init")
+	if init == nil {
+		return nil, false
+	}
+	var mk ssa.Value
+	n := 0
+	instrsOf(init, func(i ssa.Instruction) {
+		if st, ok := i.(*ssa.Store); ok && st.Addr == ssa.Value(g) {
+			mk, n = st.Val, n+1
+		}
+	})
+	if _, isMake := mk.(*ssa.MakeMap); n != 1 || !isMake {
+		return nil, false
+	}
+	out := map[bool]int64{}
+	ok = true
+	for _, u := range *mk.Referrers() {
+		switch y := u.(type) {
+		case *ssa.MapUpdate:
+			k, isK := y.Key.(*ssa.Const)
+			v, isV := evalConst(y.Value)
+			if y.Map != mk || !isK || !isV || k.Value == nil || k.Value.Kind() != constant.Bool {
+				ok = false
+				continue
+			}
+			if _, dup := out[constant.BoolVal(k.Value)]; dup {
+				ok = false
+			}
+			out[constant.BoolVal(k.Value)] = v
+		case *ssa.Store:
+			if y.Addr != ssa.Value(g) {
+				ok = false
+			}
+		case *ssa.DebugRef:
+		default:
+			ok = false
+		}
+	}
+	return out, ok
 }
 
 // appendCondEdges finds, in fn, the edges on which `attrs & APPEND_WRITE != 0`
